@@ -91,7 +91,9 @@ def main(argv=None):
     bounded = [b for b in prop.get("bounded", []) if a.tier == "thorough" or not b.get("thorough_only")]
     if a.only:
         bounded = [b for b in bounded if a.only in b["name"]]
-    _OPTS.update(task_timeout=prop.get("task_timeout", 300 if a.tier == "quick" else 1200),
+    # (wall-clock backstop per task; the deciding budgets are the solver rlimits.  Generous on purpose: refuting an
+    #  obligation under quantified facts - i.e. on a tree that breaks the property - takes up to three solver stages)
+    _OPTS.update(task_timeout=prop.get("task_timeout", 900 if a.tier == "quick" else 2400),
                  keep_smt=1, bounded=bounded, seed=seed, tier=a.tier)
     if a.tier == "thorough":
         # thorough: 4x the deterministic solver budgets (set before the workers fork), thorough-only tasks,
@@ -167,7 +169,7 @@ def report(a, prop, tasks, results, bres, seed, t0):
                                     "solver": o["solver"], "time_s": o["time_s"],
                                     "smt2_head": (o.get("smt") or "")[:1500] or None})
             elif o["verdict"] == "REFUTED":
-                k = next((k for k in open_known if k["task"] == r["task"] and k["obligation"] == o["name"]), None)
+                k = next((k for k in open_known if k.get("task") == r["task"] and k.get("obligation") == o["name"]), None)
                 if k is not None:
                     matched.append((k, o, t))
                 else:
@@ -176,7 +178,7 @@ def report(a, prop, tasks, results, bres, seed, t0):
             else:
                 # an obligation that an OPEN known finding names as false on this tree: a path on which the solver
                 # finds no model for it (unknown) adds nothing new - same finding, not a separate undecided result
-                k = next((k for k in open_known if k["task"] == r["task"] and k["obligation"] == o["name"]), None)
+                k = next((k for k in open_known if k.get("task") == r["task"] and k.get("obligation") == o["name"]), None)
                 if k is not None:
                     matched.append((k, o, t))
                     continue
